@@ -711,7 +711,16 @@ def _norm(a, ord=None, axis=None, **kw):
             out[i] = SReal(n)
         return SArray(out, 'f')
     sq = numpy.sum(a * numpy.conjugate(a) if a.kind == 'c' else a * a, axis=axis)
-    return numpy.sqrt(numpy.real(sq) if a.kind == 'c' else sq)
+    sq = SArray.wrap(numpy.real(sq) if a.kind == 'c' else sq)
+    # the radicand is a sum of squares: the root exists unconditionally (no guard, no definedness condition)
+    out = numpy.empty(sq.shape, object)
+    for i in numpy.ndindex(*sq.shape):
+        x = sq.a[i]
+        if is_concrete(x): out[i] = float(numpy.sqrt(float(x))); continue
+        n = ctx().fresh(z3.RealSort(), 'norm')
+        ctx().side.append(z3.And(n >= 0, n * n == lift(x).cast('f').t))
+        out[i] = SReal(n)
+    return SArray(out, 'f')
 @handles(numpy.real)
 def _real(a): return SArray.wrap(a).real
 @handles(numpy.imag)
